@@ -6,6 +6,12 @@ parser.ParseReader / parser.ParseFrugal) and by the Coq model (Gen/Grammar.v run
 interpreter with the transcribed actions, Judge/JParser.v); parse trees and error lists must
 agree exactly.  Direct oracle (no model): parse(render(model)) == canon(model) on the real
 parser, and the `-gen json` descriptor agrees with the model as an independent second view.
+Programs (ParseFrugal on several files): the model side is Model/ParserFiles.v parse_program, which is
+Model/CompilerValidate.v cparse_program (the one transcription of Frugal.validate / parseFrugal, C11) run
+on the PEG model's own parse trees; valid programs must be accepted with exactly the declared trees,
+programs with one semantic fault (c10_gen.FAULTS injected into generated declarations, REPAIRED_CHECKS as
+fixed texts, each also behind an include) must be rejected with the diagnostic of that check, and the
+model must give the same answer and, for validate's diagnostics, the same text.
 Static: grammar.peg and the generated grammar.peg.go (what runs, and what Gen/Grammar.v is regenerated
 from) must describe the same parser (props/c10_pegsync.py); any difference is a violation.
 """
